@@ -238,6 +238,13 @@ def func_scripts(d, prop):
                     add([_mk("arr", n), _mk("arr", n), {"op": "zip", "recv": [1, 2], "form": [a, b], "panic_at": pa, "pass_mod": pm}], recv=a + "," + b, pass_mod=pm)
         if form[0] and form[1]:
             add([_mk("box", n), _mk("box", n), {"op": "zip", "recv": [1, 2], "form": ["own", "own"], "panic_at": pa}], recv="box,box")
+        # one operand of another element type without drop glue (the drop-aware / drop-free branch is
+        # chosen from BOTH element types): tracked on either side, owned or borrowed
+        if form[0] != form[1] or (form[0] and form[1]):
+            for side in ("l", "r"):
+                for tf in (["own"] if form[0] or form[1] else []) + (["ref"] if not (form[0] and form[1]) else []):
+                    for pf in ("own", "ref"):
+                        add([_mk("arr", n), {"op": "zipx", "recv": [1], "form": [tf], "side": side, "pform": pf, "panic_at": pa}], recv="mixed:%s:%s:%s" % (side, tf, pf))
     return out
 
 
@@ -878,7 +885,7 @@ def alloc_failure_scenarios(c, binary, scns, name):
 
 # (Box::clone of a large array is std's `Box::new((**self).clone())` and is not among the constructors
 #  the property names; it overflows a small stack in debug builds by design of std, so it is not demanded.)
-BIG_OPS = ["default_boxed", "generate", "box_arr_repeat", "boxed_from_iter", "try_boxed_from_iter", "boxed_map"]
+BIG_OPS = ["default_boxed", "generate", "box_arr_repeat", "boxed_from_iter", "try_boxed_from_iter", "boxed_map", "generate_bigelem", "default_boxed_bigelem"]
 
 
 @check("C15")
